@@ -73,7 +73,11 @@ class LeafNode(TreeNode):
 
     def edits(self, node: TreeNode) -> Edit:
         if isinstance(node, LeafNode):
-            return Match(self, node, levenshtein_distance(str(self.object), str(node.object)))
+            cost = levenshtein_distance(str(self.object), str(node.object))
+            if cost == 0 and self != node:
+                # different objects that happen to share a string representation, e.g., 1 and "1"
+                cost = 1
+            return Match(self, node, cost)
         elif isinstance(node, ContainerNode):
             return Replace(self, node)
 
@@ -104,7 +108,8 @@ class LeafNode(TreeNode):
 
     def __eq__(self, other):
         if isinstance(other, LeafNode):
-            return self.object == other.object
+            # bool is a subclass of int in Python, but `true` and `1` are different values in the formats we parse
+            return self.object == other.object and isinstance(self.object, bool) == isinstance(other.object, bool)
         else:
             return self.object == other
 
@@ -346,7 +351,9 @@ class ListNode(SequenceNode[Tuple[T, ...]], Generic[T]):
                     to_node=node
                 )
             else:
-                if self.all_children_are_leaves() and node.all_children_are_leaves():
+                if self.all_children_are_leaves() and node.all_children_are_leaves() and \
+                        all(c.total_size > 0 for c in self._children) and all(c.total_size > 0 for c in node._children):
+                    # (an item of size zero, like "" or null, would otherwise be inserted or removed for free)
                     insert_remove_penalty = 0
                 else:
                     insert_remove_penalty = 1
